@@ -1,16 +1,17 @@
 /* C01: sqfs_block_processor_append (lib/sqfs/src/block_processor/frontend.c)
- * with get_new_block and enqueue_block in place - where every input byte of a
- * file goes. Unbounded: `size` is any value (0 included), the copy loop and
- * the back-pressure loop of get_new_block are closed by loop contracts
- * (contracts/loops/C01_w4.tbl); the state at entry is arbitrary within the
+ * - where every input byte of a file goes. Unbounded: `size` is any value
+ * <= 2^40 (0 included), the copy loop is closed by a loop contract
+ * (contracts/loops/C01_w14.tbl); the state at entry is arbitrary within the
  * front end's invariant: no current block, or one with 0 <= fill < block size;
  * data may be NULL (zero fill); with or without inode.
  *
- * Environment: at most one block is in the front end's hands at a time, so one
- * typed block object stands for "the block malloc / the free list delivers"
- * (the pool takes it away at submit; dequeue_block may hand it back through
- * the free list); memcpy/memset are checking stubs that advance the ghost
- * input cursor g_done; the pool, dequeue_block and malloc may fail.
+ * Modular (w14): get_new_block and enqueue_block are REPLACED by their
+ * contracts GNB / ENQ (w14_bp_model.h, goto-instrument --replace-calls in a
+ * pre-pass); the real bodies are proved against the same contracts in
+ * w14_bp_get_new_block.c / w14_bp_enqueue.c. The loop invariant is therefore
+ * only the arithmetic identity  index * BS + fill == pos0 + done.
+ *
+ * memcpy/memset are checking stubs that advance the ghost input cursor g_done.
  *
  * File position P = BS * (index of the block being filled) + its fill.
  *
@@ -22,53 +23,67 @@
  *              in-block offset P % BS of the block with index P / BS,
  *              never across a block end; success ==> done == size
  *           C01.bp.blocks_full   only full blocks are submitted, with
- *              consecutive indices, each exactly once; afterwards the current
- *              block (if any) is the one holding position P with fill P % BS
- *              < BS
+ *              consecutive indices, each exactly once, the first-block mark
+ *              on index 0 and only there; afterwards the current block (if
+ *              any) is the one holding position P with fill P % BS < BS
  *           C01.bp.file_size     the inode's file size grows by exactly `size`
- *           C01.bp.fail_stop     an environment failure is returned
- *           terminates           (decreases clauses)
+ *           C01.bp.fail_stop     a callee failure is returned, and only that
+ *           C01.bp.one_block_in_hand  a new block is only asked for when the
+ *              previous one was handed over
+ *           terminates           (decreases clause)
  */
 /* block size = 2^BS_LOG; positions are split with shifts and masks (a 64 bit
  * division circuit per clause makes the SAT problem needlessly hard) */
 #ifndef BS_LOG
 #define BS_LOG 12
 #endif
-#define BS (1u << BS_LOG)
 #define P_IDX(p) ((sqfs_u64)(p) >> BS_LOG)
 #define P_OFF(p) ((sqfs_u64)(p) & (BS - 1))
-#include "C08/bp_env.h"
 
 #ifndef HAVE_CUR
 #define HAVE_CUR 1
 #endif
 
-/* ghosts named in the loop contracts */
+#define FIRST ((sqfs_u32)SQFS_BLK_FIRST_BLOCK)
+
+#include "lib/sqfs/src/block_processor/internal.h"
+
+/* ghosts named in the loop contract */
 size_t g_size0, g_done;
 const char *g_data0;
 sqfs_u64 g_pos0;		/* file position at entry */
 sqfs_u64 g_read0;		/* stats.input_bytes_read at entry */
-unsigned g_faults, g_submitted, g_deq_calls;
-_Bool g_live;			/* the block object is in the front end's hands */
-blk_t g_blk;
-sqfs_inode_generic_t *g_slot;
 sqfs_inode_generic_t **g_inode_arg;
 sqfs_u32 g_user_flags;
 
+/* what append promises about every block it hands to enqueue_block */
+static void w14_enq_monitor(const sqfs_block_t *blk);
+#define W14_ENQ_MONITOR(blk) w14_enq_monitor(blk)
+
+#define W14_BP_CALLER_STUBS
+#include "w14_bp_model.h"
+
 static void *c01_memcpy(void *dst, const void *src, size_t n);
 static void *c01_memset(void *dst, int c, size_t n);
-static void *c01_malloc(size_t n);
 #define memcpy c01_memcpy
 #define memset c01_memset
-#define malloc c01_malloc
 #include "lib/sqfs/src/block_processor/frontend.c"
 #undef memcpy
 #undef memset
-#undef malloc
 
-static thread_pool_t g_pool;
+static sqfs_inode_generic_t *g_slot;
 static sqfs_u64 g_fsize0, g_fsize_set;
 static unsigned g_setsize_calls;
+
+static void w14_enq_monitor(const sqfs_block_t *blk)
+{
+	VERIF_ASSERT(blk->size == BS &&
+		     blk->index == P_IDX(g_pos0) + g_submitted &&
+		     blk->inode == g_inode_arg, "C01.bp.blocks_full");
+	VERIF_ASSERT((blk->flags & ~FIRST) == g_user_flags &&
+		     ((blk->flags & FIRST) != 0) == (blk->index == 0),
+		     "C01.bp.blocks_full");
+}
 
 static void copy_pre(void *dst, size_t n)
 {
@@ -94,87 +109,26 @@ static void *c01_memcpy(void *dst, const void *src, size_t n)
 
 static void *c01_memset(void *dst, int c, size_t n)
 {
-	if (n == sizeof(sqfs_block_t) && dst == (void *)&g_blk.b) {
-		/* get_new_block clears the header of the block it hands out */
-		VERIF_ASSERT(c == 0 && g_live, "C01.bp.append_safe");
-		g_blk.b.next = NULL;
-		g_blk.b.inode = NULL;
-		g_blk.b.io_seq_num = 0;
-		g_blk.b.flags = 0;
-		g_blk.b.size = 0;
-		g_blk.b.checksum = 0;
-		g_blk.b.index = 0;
-		g_blk.b.user = NULL;
-		return dst;
-	}
-	/* zero fill for data == NULL */
+	/* zero fill for data == NULL (the header clearing memset is in
+	 * get_new_block, which is replaced here) */
 	copy_pre(dst, n);
 	VERIF_ASSERT(g_data0 == NULL && c == 0, "C01.bp.bytes_in_order");
 	g_done += n;
 	return dst;
 }
 
-static void *c01_malloc(size_t n)
-{
-	VERIF_ASSERT(n == sizeof(sqfs_block_t) + BS && !g_live &&
-		     g_p.proc.free_list == NULL, "C01.bp.append_safe");
-	if (verif_nd_bool("malloc_fails")) {
-		g_faults += 1;
-		return NULL;
-	}
-	g_live = 1;
-	return &g_blk.b;
-}
-
-int stub_submit(thread_pool_t *pool, void *item)
-{
-	VERIF_ASSERT(pool == &g_pool && item == (void *)&g_blk.b && g_live,
-		     "C01.bp.blocks_full");
-	VERIF_ASSERT(g_blk.b.size == BS &&
-		     g_blk.b.index == P_IDX(g_pos0) + g_submitted &&
-		     g_blk.b.inode == g_inode_arg,
-		     "C01.bp.blocks_full");
-	VERIF_ASSERT((g_blk.b.flags & ~(sqfs_u32)SQFS_BLK_FIRST_BLOCK) == g_user_flags,
-		     "C01.bp.blocks_full");
-	g_live = 0;	/* the pool owns it now */
-	if (g_submitted < 0xFFFFFFFFu)
-		g_submitted += 1;
-	if (verif_nd_bool("submit_fails")) {
-		g_faults += 1;
-		return -1;
-	}
-	return 0;
-}
-
-int stub_get_status(thread_pool_t *pool)
-{
-	(void)pool;
-	return verif_nd_bool("status_zero") ? 0 : SQFS_ERROR_COMPRESSOR;
-}
-
-/* contract of dequeue_block as seen by get_new_block: an error, or the
- * backlog shrank; a finished block may have come back to the free list */
 int dequeue_block(sqfs_block_processor_t *proc)
 {
-	size_t nb;
-
-	VERIF_ASSERT(proc == &g_p.proc && proc->backlog > 0, "C01.bp.append_safe");
-	g_deq_calls += 1;
-	if (verif_nd_bool("dequeue_fails")) {
-		g_faults += 1;
-		return SQFS_ERROR_IO;
-	}
-	nb = verif_nd_size("backlog_after");
-	VERIF_ASSUME(nb < proc->backlog);
-	proc->backlog = nb;
-	if (!g_live && verif_nd_bool("block_recycled")) {
-		g_blk.b.next = NULL;
-		g_blk.b.flags = verif_nd_u32("stale");
-		g_blk.b.size = verif_nd_u32("stale");
-		g_blk.b.index = verif_nd_u32("stale");
-		proc->free_list = &g_blk.b;
-	}
+	(void)proc;
+	VERIF_ASSERT(0, "C01.bp.env_unreachable");
 	return 0;
+}
+
+void *alloc_flex(size_t a, size_t b, size_t c)
+{
+	(void)a; (void)b; (void)c;
+	VERIF_ASSERT(0, "C01.bp.env_unreachable");
+	return NULL;
 }
 
 int sqfs_inode_get_file_size(const sqfs_inode_generic_t *inode, sqfs_u64 *size)
@@ -208,16 +162,13 @@ void harness(void)
 	int ret;
 
 	g_done = 0;
-	g_faults = g_submitted = g_deq_calls = 0;
+	g_faults = g_submitted = 0;
 	g_setsize_calls = 0;
-	g_alloc_calls = 0;
 
 	g_p.proc.max_block_size = BS;
 	g_p.proc.begin_called = true;
-	g_p.proc.pool = &g_pool;
-	g_pool.submit = stub_submit;
-	g_pool.get_status = stub_get_status;
-	g_p.proc.file = NULL;		/* in-flight copies: C08 frag_enqueue */
+	g_p.proc.pool = NULL;		/* only enqueue_block touches the pool */
+	g_p.proc.file = NULL;
 	g_p.proc.uncmp = NULL;
 	g_p.proc.user = NULL;
 	g_p.proc.free_list = NULL;
@@ -238,20 +189,27 @@ void harness(void)
 	fill0 = verif_nd_u32("fill");
 	/* block list of a file stays below 2^30 entries (set_block_size) */
 	VERIF_ASSUME(index0 < (1u << 30));
-	blk_nd_header(&g_blk, "stale");
+	g_blk.b.next = NULL;
+	g_blk.b.user = NULL;
+	g_blk.b.io_seq_num = verif_nd_u32("stale");
+	g_blk.b.checksum = verif_nd_u32("stale");
 #if HAVE_CUR
 	VERIF_ASSUME(index0 >= 1 && fill0 < BS);
 	g_blk.b.index = index0 - 1;
 	g_blk.b.size = fill0;
 	g_blk.b.inode = g_inode_arg;
-	g_blk.b.flags = g_user_flags | (index0 == 1 ? SQFS_BLK_FIRST_BLOCK : 0);
+	g_blk.b.flags = g_user_flags | (index0 == 1 ? FIRST : 0);
 	g_p.proc.blk_current = &g_blk.b;
 	g_p.proc.blk_flags = g_user_flags;
 	g_live = 1;
 	g_pos0 = ((sqfs_u64)(index0 - 1) << BS_LOG) + fill0;
 #else
+	g_blk.b.index = verif_nd_u32("stale");
+	g_blk.b.size = verif_nd_u32("stale");
+	g_blk.b.inode = NULL;
+	g_blk.b.flags = verif_nd_u32("stale");
 	g_p.proc.blk_current = NULL;
-	g_p.proc.blk_flags = g_user_flags | (index0 == 0 ? SQFS_BLK_FIRST_BLOCK : 0);
+	g_p.proc.blk_flags = g_user_flags | (index0 == 0 ? FIRST : 0);
 	g_live = 0;
 	g_pos0 = (sqfs_u64)index0 << BS_LOG;
 #endif
@@ -262,7 +220,7 @@ void harness(void)
 	if (verif_nd_bool("data_is_null")) {
 		g_data0 = NULL;
 	} else {
-		/* the caller's buffer: size bytes (capped object, symbolic size) */
+		/* the caller's buffer: size bytes (symbolic size) */
 		bufsz = g_size0 ? g_size0 : 1;
 		g_data0 = malloc(bufsz);
 		VERIF_ASSUME(g_data0 != NULL);
@@ -287,6 +245,9 @@ void harness(void)
 			     "C01.bp.bytes_in_order");
 		VERIF_ASSERT(g_submitted == P_IDX(pend) - P_IDX(g_pos0),
 			     "C01.bp.blocks_full");
+		VERIF_ASSERT((g_p.proc.blk_flags & ~FIRST) == g_user_flags &&
+			     ((g_p.proc.blk_flags & FIRST) != 0) ==
+			     (g_p.proc.blk_index == 0), "C01.bp.blocks_full");
 		if (P_OFF(pend) == 0) {
 			VERIF_ASSERT(g_p.proc.blk_current == NULL && !g_live &&
 				     g_p.proc.blk_index == P_IDX(pend),
@@ -296,7 +257,10 @@ void harness(void)
 				     g_blk.b.index == P_IDX(pend) &&
 				     g_blk.b.size == P_OFF(pend) &&
 				     g_p.proc.blk_index == P_IDX(pend) + 1 &&
-				     g_blk.b.inode == g_inode_arg,
+				     g_blk.b.inode == g_inode_arg &&
+				     (g_blk.b.flags & ~FIRST) == g_user_flags &&
+				     ((g_blk.b.flags & FIRST) != 0) ==
+				     (g_blk.b.index == 0),
 				     "C01.bp.blocks_full");
 		}
 	}
@@ -305,6 +269,6 @@ void harness(void)
 	VERIF_COVER(ret == 0 && g_submitted >= 3);
 	VERIF_COVER(ret == 0 && g_data0 == NULL && g_size0 > 0);
 	VERIF_COVER(ret == 0 && P_OFF(pend) == 0 && g_size0 > 0);
-	VERIF_COVER(ret == 0 && g_deq_calls > 0);
+	VERIF_COVER(ret == 0 && P_OFF(pend) != 0 && g_submitted >= 1);
 	VERIF_COVER(ret != 0);
 }
